@@ -1156,13 +1156,14 @@ def wTwoSites : List Site :=
   [ ⟨some 0, [.respond 1404], []⟩, ⟨none, [.respond 299], [⟨[], [.respond 211]⟩]⟩ ]
 
 /-
-FULL STATEMENT (false for the adapter as it is): "site blocks do not cascade nor inherit" also for
-errors — an error raised in a site is handled by THAT site's `handle_errors` blocks, or by none.
-Only sites that have `handle_errors` blocks get a wrapper in the server's error routes, so the
-error of a site without any falls through to the next wrapper whose address matches: here the
-404 of a.test is answered 211 by the `handle_errors` of the block without a host.
+OBSERVATION (not a clause of the property: the server evaluates the emitted route tree exactly by
+the rules; this is about what the adapter emits).  Only sites that have `handle_errors` blocks get
+a wrapper in the server's error routes, so the error of a site without any falls through to the
+next wrapper whose address matches: here the 404 of a.test is answered 211 by the `handle_errors`
+of the block without a host, although the Caddyfile documentation says site blocks do not inherit.
+Candidate patch for the adapter: /verif/.run/fixes/C05-site-errors-stay-in-their-site.patch.
 -/
-theorem site_error_reaches_other_sites_handle_errors :
+theorem site_error_reaches_other_sites_handle_errors_observation :
     (adaptSites wTwoSites).map (fun x => (serve x.1 x.2.1 x.2.2 ⟨0, 0, 1, 0, [], none, none, 1, []⟩).status)
       = some (some 211) ∧
     (adaptSites [⟨some 0, [.respond 1404], []⟩]).map
